@@ -169,7 +169,9 @@ fn writer_body_with(ch: &Chooser, scripts: &[WScript], pools: &[usize], ends: &[
     rtc.sticky_workers = STICKY.with(|k| k.get());
     let caught = vmc::catch(|| vrt::run(ch, rtc, move || {
         let mut log = Log { results: Vec::new(), injected_seen: false, other_err: None, finished_ok: false, at_return: Vec::new() };
-        let mut w = bgzf::io::MultithreadedWriter::new(sink2);
+        // ManuallyDrop: when an execution is aborted (deadlock, horizon) this thread is unwound; the writer's
+        // Drop would then join a thread that never finished. An aborted execution leaks the object instead.
+        let mut w = std::mem::ManuallyDrop::new(bgzf::io::MultithreadedWriter::new(sink2));
         let mut off = 0u64;
         let mut failed = false;
         let note = |log: &mut Log, name: String, r: io::Result<()>| -> bool {
@@ -205,14 +207,14 @@ fn writer_body_with(ch: &Chooser, scripts: &[WScript], pools: &[usize], ends: &[
             }
         }
         match end {
-            WEnd::Drop => drop(w),
-            WEnd::Finish if failed => drop(w),
+            WEnd::Drop => drop(std::mem::ManuallyDrop::into_inner(w)),
+            WEnd::Finish if failed => drop(std::mem::ManuallyDrop::into_inner(w)),
             WEnd::Finish | WEnd::FinishAfterError => {
                 let r = w.finish().map(|_| ());
                 if note(&mut log, "finish".into(), r) {
                     log.finished_ok = true;
                 }
-                drop(w);
+                drop(std::mem::ManuallyDrop::into_inner(w));
             }
         }
         // what the destination holds at the moment finish()/drop returned to the caller
@@ -567,7 +569,8 @@ fn reader_body(ch: &Chooser, cases: &[RCase], pools: &[usize], cost: CostModel, 
             bgzf::VirtualPosition::try_from((c as u64, o as u16)).unwrap()
         };
         let _ = n_blocks;
-        let mut r = bgzf::io::MultithreadedReader::new(Src { cur: Cursor::new(bytes), fail_at, interrupt_at });
+        // ManuallyDrop: see the writer body
+        let mut r = std::mem::ManuallyDrop::new(bgzf::io::MultithreadedReader::new(Src { cur: Cursor::new(bytes), fail_at, interrupt_at }));
         let mut out = Vec::new();
         let mut finish_result: Option<Result<(), io::ErrorKind>> = None;
         for op in &script {
@@ -630,7 +633,7 @@ fn reader_body(ch: &Chooser, cases: &[RCase], pools: &[usize], cost: CostModel, 
         if finish_result.is_none() && end_with_finish {
             finish_result = Some(r.finish().map(|_| ()).map_err(|e| e.kind()));
         }
-        drop(r);
+        drop(std::mem::ManuallyDrop::into_inner(r));
         (out, finish_result)
     }));
     let (obs, info) = match caught {
